@@ -55,9 +55,14 @@ def run(ctx):
         fams.append(("rs_one4", [1, 2], 4, "sim", 400))
     else:
         fams += [("rs_one3", [1], 3, None, 6000), ("rs_two3", [1, 2], 3, None, 6000), ("rs_sim5", [1, 2], 5, "sim", 2000)]
+    # sessions in which a side delivers no event at all before the stop (empty account: nothing to report in session 1):
+    # the cursor adopted at first start must be the one a later session resumes from
+    fams.append(("rs_silent2", [1, 2], 2, "empty", 500 if quick else None))
     exhaustive = True
     for name, sides, nops, mode, limit in fams:
-        if mode == "sim":
+        if mode == "empty":
+            cases = sc.generate(ctx, name, sides, nops, GAPS, "empty", filt="disjoint")
+        elif mode == "sim":
             cases = sc.generate(ctx, name, sides, nops, GAPS, "std", filt="cleandisjoint", simulate=(60, ctx.seed + 9))
             exhaustive = False
         else:
@@ -66,6 +71,11 @@ def run(ctx):
         ctx.extra.setdefault("family_sizes", {})[name] = len(cases)
         cases, full = sc.slice_cases(cases, limit, ctx.seed * 122949829 + nops)
         exhaustive = exhaustive and full
+        if name in ("rs_one2", "rs_oneR2"):
+            # the same behaviours on accounts that already held identical trees when the engine first started: neither provider
+            # reports anything in the first session, the cursors a later session resumes from are the ones adopted at first start
+            pre, _ = sc.slice_cases(cases, 300 if quick else 3000, key=name + "_pre")
+            cases = cases + [dict(c, base_side=2, family=name + "_pre") for c in pre]
         sc.run_family(ctx, sc.with_flavors(cases, flavors), "restart family %s" % name, CLAUSES, extra_sig=xsig, accept=accept)
     ctx.cov["exhaustive"] = exhaustive
 
